@@ -12,18 +12,21 @@ RULE = ("generated outputs with hydro/grav/rt/part/sink files whose hydro and pa
         "alphabet rich in x/y/z (suffix stem_x, infix a_x_b, prefix x_frac, no-underscore wx, stems containing the "
         "letter x such as flux_x / extra_y), complete and partial component families, a z component in 2-D outputs, "
         "and in 10% of the sets a scalar that already bears a family's merged name; selections: list of groups, "
-        "group name as string, {group: False}, {group: [variable names]} over all descriptors.  Oracle: (1) the full "
+        "{group: False}, {group: [variable names]} over all descriptors (occasionally an empty list), and one group "
+        "switched off next to a list for the other; every output has particles on at least one CPU.  Oracle: (1) the full "
         "load must contain every descriptor variable with the model's values (located by name, or inside the vector "
         "its family was merged into) - nothing lost or renamed by the merge; (2) a selective load must contain every "
         "requested variable bit-identical to the full load, nothing that was excluded, excluded groups absent, and "
-        "vectors exactly for the families whose ndim components were all loaded.  non-trivial = a skipped variable "
+        "vectors exactly for the families whose ndim components were all loaded; the sink group of a selective load "
+        "equals the full load's bit for bit.  non-trivial = a skipped variable "
         "precedes a read one in its descriptor, or a partial family is loaded.")
 ASSUMPTIONS = [
     "merged names are asserted only where the loader's documented output fixes them (stem_x -> stem, a_x_b -> a_b, "
     "x,y,z -> position); for other spellings any Vector name is accepted",
     "when a scalar already bears a family's merged name, components kept as scalars or merged under any name are "
     "both accepted, as long as no variable is lost",
-    "derived variables (mass, B_field) may appear whenever their inputs were loaded",
+    "derived mesh variables may appear when their inputs were loaded (mass: density and dx; B_field: a B_ variable)",
+    "selections are given as lists / dicts as the property quantifies; a bare string is not generated",
 ]
 osyris = None
 FAMILY_TEMPLATES = [
@@ -85,7 +88,11 @@ def case_st(draw):
     pd, pf, pcol = draw(name_sets(ndim, PART_TEMPLATES, PART_SCALARS, typed=True))
     if len(pd) < 2:
         pd.append(["extra_d1", "d"])
+    if draw(st.booleans()):
+        pd = [list(x) for x in draw(st.permutations(pd))]      # integer / byte columns anywhere among the doubles
     case["part_desc"] = pd
+    if not any(case["part_counts"]):
+        case["part_counts"] = [draw(st.sampled_from([1, 3, 17]))] + list(case["part_counts"])   # skipping zero particles shows nothing
     case["families"] = {"mesh": hf + [{"comps": {c: f"position_{c}" for c in "xyz"[:ndim]}, "merged": "position"}]
                         + ([{"comps": {c: f"grav_acceleration_{c}" for c in "xyz"[:ndim]}, "merged": "grav_acceleration"}]
                            if case["grav"] else [])
@@ -93,13 +100,14 @@ def case_st(draw):
                            if any(v.startswith("photon_flux") for v in case["rt_vars"]) else []),
                         "part": pf}
     case["collisions"] = [c for c in (hcol, pcol) if c]
+    case["collisions_by_group"] = {"mesh": [hcol] if hcol else [], "part": [pcol] if pcol else []}
     # ---- selections
     mesh_names = ["level", "cpu", "dx"] + [f"position_{c}" for c in "xyz"[:ndim]] + hv + (
         ["grav_potential"] + [f"grav_acceleration_{c}" for c in "xyz"[:ndim]] if case["grav"] else []) + list(case["rt_vars"])
     part_names = [n for n, _ in pd]
     sels = []
     for _ in range(draw(st.integers(2, 4))):
-        kind = draw(st.sampled_from(["groups", "string", "off", "vars", "vars", "vars"]))
+        kind = draw(st.sampled_from(["groups", "off", "vars", "vars", "vars", "mixed"]))
         if kind == "groups":
             sels.append({"k": "groups", "v": draw(st.lists(st.sampled_from(["mesh", "part", "sink"]), min_size=1,
                                                            max_size=2, unique=True))})
@@ -108,12 +116,22 @@ def case_st(draw):
         elif kind == "off":
             sels.append({"k": "off", "v": draw(st.lists(st.sampled_from(["mesh", "part", "sink"]), min_size=1,
                                                         max_size=2, unique=True))})
+        elif kind == "mixed":
+            # one group switched off, the other given as a list of names
+            if draw(st.booleans()):
+                sels.append({"k": "mixed", "off": ["mesh"], "v": {"part": [n for n in part_names if draw(st.booleans())]
+                                                                  or [part_names[-1]]}})
+            else:
+                sels.append({"k": "mixed", "off": ["part"], "v": {"mesh": [n for n in mesh_names if draw(st.booleans())]
+                                                                  or [mesh_names[-1]]}})
         else:
             sel = {}
             if draw(st.integers(0, 3)):
                 sel["mesh"] = [n for n in mesh_names if draw(st.booleans())] or [mesh_names[-1]]
             if draw(st.booleans()) or not sel:
                 sel["part"] = [n for n in part_names if draw(st.booleans())] or [part_names[-1]]
+            if draw(st.integers(0, 11)) == 0:
+                sel[draw(st.sampled_from(sorted(sel)))] = []       # nothing requested from that group
             sels.append({"k": "vars", "v": sel})
     case["selections"] = sels
     return case
@@ -241,10 +259,10 @@ def subset(case, r):
                 arg = list(sel["v"])
                 want_groups = set(sel["v"])
                 varsel = {}
-            elif sel["k"] == "string":
-                arg = sel["v"]
-                want_groups = {sel["v"]}
-                varsel = {}
+            elif sel["k"] == "mixed":
+                arg = dict({g: False for g in sel["off"]}, **{g: list(v) for g, v in sel["v"].items()})
+                want_groups = {"mesh", "part", "sink"} - set(sel["off"])
+                varsel = sel["v"]
             elif sel["k"] == "off":
                 arg = {g: False for g in sel["v"]}
                 want_groups = {"mesh", "part", "sink"} - set(sel["v"])
@@ -262,20 +280,41 @@ def subset(case, r):
             have_sink = "sink" in full.keys()
             for g in ("mesh", "part", "sink"):
                 should = g in want_groups and (g != "sink" or have_sink)
+                if g in varsel and not varsel[g]:
+                    r.label("empty_variable_list")
+                    continue            # nothing requested from the group: whether an empty group appears is not judged
                 if should != (g in sub.keys()):
                     r.bad(["select", "group-presence", sel["k"]], f"select={arg!r}: group {g} present={g in sub.keys()} "
                           f"expected {should}")
                     return
+            if "sink" in want_groups and have_sink and "sink" in sub.keys():
+                fs, ff = _flatten(sub["sink"]), flat_full["sink"]
+                if sorted(fs) != sorted(ff) or any(
+                        fs[k].unit != ff[k].unit or fs[k].shape != ff[k].shape or not np.array_equal(
+                            np.asarray(fs[k].values), np.asarray(ff[k].values), equal_nan=True) for k in ff):
+                    r.bad(["select", "sink-differs", sel["k"]], f"select={arg!r}: sink group {sorted(fs)} differs from the full "
+                          f"load's {sorted(ff)}")
+                    return
+                r.label("sink_compared")
             for g, raws, fl in (("mesh", mesh_raw, fams["mesh"]), ("part", part_raw, fams["part"])):
-                if g not in want_groups:
+                if g not in want_groups or g not in sub.keys():
                     continue
                 requested = [n for n in raws if (g not in varsel) or (n in varsel[g])]
                 excluded = [n for n in raws if n not in requested]
                 desc_order = raws[3 + ndim:] if g == "mesh" else raws
-                read_flags = [n in requested for n in desc_order]
-                if any((not a) and any(read_flags[i + 1:]) for i, a in enumerate(read_flags)):
-                    nontriv = True
-                    r.label("skip_before_read")
+                # per file: a skipped variable precedes a read one (hydro, grav and rt files have their own offsets)
+                files_ = [m.hydro_vars, m.grav_vars, m.rt_vars] if g == "mesh" else [raws]
+                for fvars in files_:
+                    flags = [n in requested for n in fvars]
+                    if any((not a) and any(flags[i + 1:]) for i, a in enumerate(flags)) and (g == "mesh" or ntot > 0):
+                        nontriv = True
+                        r.label("skip_before_read")
+                        if g == "part":
+                            tmap = dict(m.part_desc)
+                            first_read = max(i for i, a in enumerate(flags) if a)
+                            for i, a in enumerate(flags[:first_read]):
+                                if not a and tmap[fvars[i]] in "ib":
+                                    r.label("part_skip_" + tmap[fvars[i]])
                 flat = _flatten(sub[g])
                 loaded = set(requested)
                 for fam in fl:
@@ -294,13 +333,20 @@ def subset(case, r):
                     def same(a, ref=ref):
                         return a.unit == ref.unit and a.shape == ref.shape and np.array_equal(
                             np.asarray(a.values), np.asarray(ref.values))
-                    k, why = _locate(flat, name, loaded, fl, ndim, coll, same)
+                    coll_g = [c for c in case.get("collisions_by_group", {}).get(g, coll) if c in loaded]
+                    k, why = _locate(flat, name, loaded, fl, ndim, coll_g, same)
                     if k is None:
                         r.bad(["select", "variable-differs-or-missing", g, sel["k"]],
                               f"select={arg!r}: {why}; keys {sorted(sub[g].keys())}; descriptor order {desc_order}")
                         return
                     accounted.add(k)
-                allowed_extra = {("mass", ""), ("B_field", "x"), ("B_field", "y"), ("B_field", "z")}
+                allowed_extra = set()
+                if g == "mesh":
+                    # derived variables may appear when their inputs were loaded
+                    if "density" in loaded and "dx" in loaded:
+                        allowed_extra.add(("mass", ""))
+                    if any(n.startswith("B_") for n in loaded):
+                        allowed_extra |= {("B_field", c) for c in "xyz"} | {("B_field", "")}
                 extra = [k for k in flat if k not in accounted and k not in allowed_extra]
                 if extra and (g in varsel):
                     r.bad(["select", "excluded-variable-present", g], f"select={arg!r}: unexpected members {extra} "
@@ -313,4 +359,5 @@ def subset(case, r):
 
 def subs(ctx):
     return [Sub("subset", subset, strategy=case_st(), quick=120, thorough=400,
-                required={"skip_before_read": 0.3, "partial_family": 0.15, "sel_vars": 0.5, "sel_off": 0.1})]
+                required={"skip_before_read": 0.3, "partial_family": 0.15, "sel_vars": 0.5, "sel_off": 0.1, "sel_mixed": 0.1,
+                          "sink_compared": 0.15, "part_skip_i": 0.03, "part_skip_b": 0.03})]
